@@ -680,6 +680,8 @@ class FnTranslator:
         if e.ty == ty:
             return e
         if e.ty == NONE:
+            if ty[0] == 'named' and 'none' in self.universes.get(ty[1], {}).get('inject', {}):
+                return E(self.universes[ty[1]]['inject']['none'], ty, e.binds)
             if ty[0] == 'opt':
                 return E('none', ty, e.binds)
             if ty == UNIT:
@@ -721,7 +723,7 @@ class FnTranslator:
         if b[0] == 'named' and a != b:
             inj = self.universes.get(b[1], {}).get('inject', {})
             for src, tmpl in inj.items():
-                if src != '[]' and T(src) == a:
+                if src not in ('[]', 'none') and T(src) == a:
                     return tmpl
             if a[0] == 'list' and a[1] is None and '[]' in inj:
                 return inj['[]']
@@ -1685,10 +1687,25 @@ class FnTranslator:
         if b.ty[0] == 'dict' and self.structural_eq(b.ty[1]):
             a2 = self.coerce(a, b.ty[1], n)
             return '(Yaql.Py.dictHas %s %s)' % (b.text, a2.text)
+        if b.ty[0] == 'dict' and self.key_dict_ops(b.ty) is not None:
+            a2 = self.coerce(a, b.ty[1], n)
+            return self.key_dict_ops(b.ty)['has'].format(b.text, a2.text)
+        if b.ty[0] == 'list' and b.ty[1] is not None and b.ty[1][0] == 'named':
+            eq = self.universes.get(b.ty[1][1], {}).get('ops', {}).get('Eq')
+            if eq is not None and not isinstance(eq, list):
+                a2 = self.coerce(a, b.ty[1], n)
+                # `x in xs`: some element equals x (python compares element == x)
+                return '(List.any %s fun y__ => %s)' % (b.text, eq.lean.format('y__', a2.text))
         r = self.named_op('In', [a, b], n)
         if r is not None and not r.binds:
             return r.text
         self.refuse(n, '`in` on types %s, %s' % (a.ty, b.ty))
+
+    def key_dict_ops(self, dty):
+        """dict primitives for keys compared by a universe's own equality (`dict` entry of the key's universe)"""
+        if dty[1] is not None and dty[1][0] == 'named':
+            return self.universes.get(dty[1][1], {}).get('dict')
+        return None
 
     def ex_Compare(self, n, env):
         b, c = self.tr_cond(n, env)
@@ -1764,6 +1781,11 @@ class FnTranslator:
             key = self.coerce(idx, recv.ty[1], n)
             t = self.tmp()
             return E(t, recv.ty[2], binds + [(t, '(Yaql.Py.dictIndex %s %s)' % (recv.text, key.text))])
+        if recv.ty[0] == 'dict' and self.key_dict_ops(recv.ty) is not None:
+            key = self.coerce(idx, recv.ty[1], n)
+            t = self.tmp()
+            return E(t, recv.ty[2], binds + [(t, '(Yaql.Py.ofOption %s .keyError)' % self.key_dict_ops(recv.ty)['get'].format(
+                recv.text, key.text))])
         if recv.ty[0] == 'named' and isinstance(n.slice, ast.Constant) and isinstance(n.slice.value, int) \
                 and n.slice.value in self.universes.get(recv.ty[1], {}).get('index_const', {}):
             tmpl, ty, partial = self.universes[recv.ty[1]]['index_const'][n.slice.value]
@@ -1892,6 +1914,14 @@ class FnTranslator:
         # 5. method on a typed receiver
         if isinstance(f, ast.Attribute):
             recv = self.tr_expr(f.value, env)
+            if recv.ty[0] == 'dict' and f.attr == 'get' and len(n.args) in (1, 2) and not n.keywords \
+                    and self.key_dict_ops(recv.ty) is not None:
+                key = self.coerce(self.tr_expr(n.args[0], env), recv.ty[1], n)
+                got = self.key_dict_ops(recv.ty)['get'].format(recv.text, key.text)
+                if len(n.args) == 1:
+                    return E(got, ('opt', recv.ty[2]), recv.binds + key.binds)
+                dflt = self.coerce(self.tr_expr(n.args[1], env), recv.ty[2], n)
+                return E('(Option.getD %s %s)' % (got, dflt.text), recv.ty[2], recv.binds + key.binds + dflt.binds)
             if recv.ty[0] == 'dict' and f.attr == 'get' and len(n.args) == 2 and not n.keywords:
                 key = self.coerce(self.tr_expr(n.args[0], env), recv.ty[1], n)
                 if not self.structural_eq(recv.ty[1]):
